@@ -58,6 +58,17 @@ fn real_main() {
     let a = |i: usize| args.get(i).map(|s| s.as_str()).unwrap_or("");
     let code = match a(1) {
         "selftest-docs" => selftest::docs(a(2).parse().unwrap_or(50)),
+        "--describe" => {
+            // pdfsim --describe <id> <tier> <seed> <run>
+            match make_check(a(2)) {
+                Some(mut c) => {
+                    let ctx = WorkerCtx { verif_seed: a(4).parse().unwrap_or(1), tier: Tier::parse(a(3)).unwrap_or(Tier::Quick), repo };
+                    println!("{}", c.describe(&ctx, a(5).parse().unwrap_or(0)));
+                    0
+                }
+                None => 2,
+            }
+        }
         "--worker" | "--worker-list" => {
             let mut check = match make_check(a(2)) {
                 Some(c) => c,
